@@ -138,7 +138,7 @@ def i_SLTIU(ins, fmap):
 def i_SLL(ins, fmap):
     dst, src1, src2 = ins.operands
     src1.sf = src2.sf = False
-    src2 = src2 & 0x1F
+    src2 = src2 & 0x3F
     if dst is not zero:
         fmap[dst] = fmap(src1 << src2)
 
@@ -147,7 +147,7 @@ def i_SLL(ins, fmap):
 def i_SRL(ins, fmap):
     dst, src1, src2 = ins.operands
     src1.sf = src2.sf = False
-    src2 = src2 & 0x1F
+    src2 = src2 & 0x3F
     if dst is not zero:
         fmap[dst] = fmap(src1 >> src2)
 
@@ -157,7 +157,7 @@ def i_SRA(ins, fmap):
     dst, src1, src2 = ins.operands
     src1.sf = True
     src2.sf = False
-    src2 = src2 & 0x1F
+    src2 = src2 & 0x3F
     if dst is not zero:
         fmap[dst] = fmap(oper(OP_ASR, src1, src2))
 
